@@ -12,8 +12,8 @@
    of panics, closed channels, promptness after cancel and a clean bubble exit
    after Close. *)
 From Verif.Lib Require Import GoSem.
-From Verif.Model Require Import Lookup OptProvide.
-From Verif.Proofs Require Import LookupBasics LookupProofs LookupConvergence OptProvideProofs.
+From Verif.Model Require Import Lookup OptProvide Followup.
+From Verif.Proofs Require Import LookupBasics LookupProofs LookupConvergence OptProvideProofs FollowupProofs.
 Local Open Scope nat_scope.
 
 (* 1. The lookup state machine never hits an internal protocol panic. *)
@@ -95,6 +95,27 @@ Print Assumptions c03_optprov_progress.
 Theorem c03_optprov_zero_returns : forall K, ph (init K 0) = Ret /\ returns_after K 0 = Ok 0.
 Proof. intro K. split; reflexivity. Qed.
 Print Assumptions c03_optprov_zero_returns.
+
+(* 9. The follow-up wait loop of runLookupWithFollowup, for every order of
+   follow-up completions, every instant at which the stop function fires and
+   every cancellation instant: it never receives more completion tokens than
+   the n follow-up queries will send, it counts every token it receives in the
+   loop, and when it has to drain it waits for exactly the outstanding ones -
+   so it always returns once the follow-up queries have ended, and an
+   interrupted follow-up has consumed all n tokens when it returns. *)
+Theorem c03_followup_drains :
+  forall n completed evs s,
+    frun (finit n completed) evs = Some s ->
+    f_recv s <= n /\
+    (f_phase s = FReturned -> f_completed s = false -> f_recv s = n) /\
+    (f_phase s <> FReturned -> f_recv s < n /\ exists s', fstep s (FDone false) = Some s').
+Proof.
+  intros n completed evs s H. destruct (frun_inv evs (finit n completed) s (finit_inv n completed) H) as [I N].
+  simpl in N. pose proof I as [I0 I1]. split; [rewrite <- N; exact I0|]. split.
+  - intros P. rewrite P in I1. rewrite <- N. exact I1.
+  - intro P. destruct (waiting_is_justified s I P) as [A B]. rewrite <- N. auto.
+Qed.
+Print Assumptions c03_followup_drains.
 
 (* Non-vacuity *)
 Example c03_nonvacuous :
